@@ -753,7 +753,9 @@ def _seed_expr(init, defs):
 
     from ..core import _Subst
 
-    for n in body_walk(init.node):
+    # statements first (the branch that builds the population), conditional expressions (e.g. inside a log record) last
+    nodes = [n for n in body_walk(init.node) if isinstance(n, ast.If)] + [n for n in body_walk(init.node) if isinstance(n, ast.IfExp)]
+    for n in nodes:
         if isinstance(n, (ast.If, ast.IfExp)):
             te = _Subst(defs, 4).visit(copy.deepcopy(n.test))
             seeds = [x for x in ast.walk(te) if (isinstance(x, ast.Attribute) and x.attr in ("sprout_seed", "_sprout_seed")) or (isinstance(x, ast.Name) and x.id in ("sprout_seed", "seed"))]
